@@ -360,12 +360,14 @@ Fixpoint prompt_trace (p : N) (n : nat) (j : nat) (k : nat) (t : N) : list tout 
   end.
 
 (* interval p polled exactly at every multiple of p; interval_at dl p (dl > 0) polled at
-   subscription, at dl, and then at every further multiple of p *)
+   subscription, at dl, and then at every further multiple of p; interval_at 0 p polled at
+   subscription and then at every multiple of p *)
 Definition prompt_case (o : top) (n : nat) : option (list tlab * list tout) :=
   match o with
   | TInterval p => Some (prompt_labels p n, prompt_trace p n 0 0 0)
   | TIntervalAt dl p =>
-      if dl =? 0 then None
+      (* the instant has been reached already: the first tick at the first poll *)
+      if dl =? 0 then Some (LRun 0 :: prompt_labels p n, TMark 0 :: TOut 0 (Next (VZ 0)) :: prompt_trace p n 1 1 0)
       else Some (LRun 0 :: LAdv dl :: LRun 0 :: prompt_labels p n,
                  TMark 0 :: TMark 1 :: TMark 2 :: TOut dl (Next (VZ 0)) :: prompt_trace p n 3 1 dl)
   | _ => None
